@@ -28,10 +28,13 @@ CLAIMS = {
              'the statement applies to copies of copies; a failed copy leaves the state unchanged. The proof computes the '
              'effect of every addReference/setReference call between elements that belong to no document and follows '
              'copyAllElements\' loops; the three source invariants it needs (C03 ownership, C12 synchronisation, '
-             'disjointness of referenced and complementary objects) are proved for every reached state. Partial in two '
-             'respects: independence under later mutation is not stated as a footprint theorem (in the model distinct '
-             'handles are distinct objects; the differential run mutates either side and compares the other), and "hence '
-             'byte-identical XML" relies on C01.',
+             'disjointness of referenced and complementary objects) are proved for every reached state. Independence '
+             '(Heap/Local.v): from any well-formed, synchronised state - in particular after a deepCopy - any sequence of '
+             'the twelve core calls, whatever their outcome, that names no element of a document dB and not dB itself leaves '
+             'every element of dB and its membership lists exactly as they were (the invariant: no stream/track link leads '
+             'into dB from outside, no other document lists an element of dB, nothing outside is parented by dB). Partial '
+             'in two respects: that deepCopy never throws on such a source is not proved, and "hence byte-identical XML" '
+             'relies on C01.',
         design='8 C09'),
     'C11': dict(
         technique='Rocq proof: the labelling of pack formats, channel formats and their blocks as an invariant of every '
